@@ -203,6 +203,22 @@ Example C13_shutdown_listener_nonvacuous :
   let s := run ls_st (ls_step true) [1; 0; 1; 1; 0; 0] ls_init in ls_final s = true /\ ls_listed s = true /\ ls_thread s = true /\ ls_ok s = true.
 Proof. exact shutdown_listener_nonvacuous. Qed.
 
+(* --- rfbCloseClient against the handshake: OPEN, finding C13-N7.  The handshake's "cl->state = next" is a plain store that can
+   overwrite the RFB_SHUTDOWN set by rfbCloseClient from another thread: the close is lost, the client's thread waits for the
+   next message, rfbShutdownServer waits in pthread_join - nobody can move *)
+Theorem C13_close_during_handshake_lost_refuted :
+  let s := run hs_st (hs_step false) hs_witness hs_init in
+  hs_state s = 3 /\ hs_final s = false /\ forall t, enabled hs_st (hs_step false) t s = false.
+Proof. exact close_during_handshake_lost. Qed.
+
+(* with notes/fix_C13_8.diff (NOT in /repo: the handshake stores its next state under updateMutex and only if the state is not
+   RFB_SHUTDOWN), ONE client, the close at any moment of the three handshake steps: never stuck, the shutdown completes *)
+Theorem C13_close_during_handshake_fixed_one_client : forall sched,
+  let s := run hs_st (hs_step true) sched hs_init in
+  (hs_final s = true \/ exists t, t < 2 /\ enabled hs_st (hs_step true) t s = true) /\
+  hs_final (run hs_st (hs_step true) hs_finishing s) = true.
+Proof. exact close_during_handshake_not_lost. Qed.
+
 (* --- cursor bracket: OPEN, finding C13-F11, two output threads (per-screen save buffer, per-client brackets) *)
 Theorem C13_cursor_bracket_atomic_refuted :
   let s := run cur_st (cur_step false) cur_witness cur_init in
